@@ -1118,6 +1118,14 @@ def register_builtins(L):
             return S
         return count_true(E, a, st)
 
+    @fn("np.count_nonzero")
+    def _np_count_nonzero(E, st, args, kw, node):
+        """np.count_nonzero of a boolean array = np.sum of it (the count of True entries)"""
+        a = as_array(args[0], st) if isinstance(args[0], Ref) else None
+        if a is None or a.kind != "b" or kw or len(args) > 1:
+            return _np_pure(E, st, args, kw, node)
+        return count_true(E, a, st)
+
     @fn("np.any", "np.all")
     def _np_anyall(E, st, args, kw, node):
         v = args[0]
@@ -1139,6 +1147,19 @@ def register_builtins(L):
     @fn("np.where", "np.flatnonzero")
     def _np_where(E, st, args, kw, node):
         _used(E, "np.where(mask)[0] / flatnonzero: ascending positions of True")
+        if len(args) == 3 and not kw:
+            # np.where(cond, x, y): elementwise choice (scalars broadcast)
+            c = as_array(args[0], st) if isinstance(args[0], Ref) else None
+            if c is not None and c.kind == "b" and c.ndim >= 1:
+                xs = [as_array(v, st) if isinstance(v, Ref) else None for v in args[1:]]
+                ok = all((isinstance(v, Ref) and d is not None and d.shape is not None and d.ndim in (0, c.ndim)) or is_scalar(v) for v, d in zip(args[1:], xs))
+                if ok:
+                    pick = [(lambda *i, d=d, v=v: (d.sel(*i) if d is not None and d.ndim else (d.sel() if d is not None else v))) for v, d in zip(args[1:], xs)]
+                    kinds = {(d.kind if d is not None else kind_of(v)) for v, d in zip(args[1:], xs)}
+                    kind = "f" if "f" in kinds else ("i" if kinds <= {"i", "b"} and "i" in kinds else ("b" if kinds == {"b"} else "o"))
+                    if kind != "o":
+                        return st.alloc(ArrData(c.shape, lambda *i: _ite_val(z3bool(c.sel(*i)), pick[0](*i), pick[1](*i)), kind))
+            return Opaque("where3")
         if len(args) != 1:
             return Opaque("where3")
         a = as_array(args[0], st) if isinstance(args[0], Ref) else None
